@@ -55,6 +55,9 @@ class Checker:
     def __init__(self, prg: Optional[Program] = None) -> None:
         self.prg = prg or Program()
         self.prop: Optional[str] = None
+        from .rules import util as _util
+
+        _util.register_program(self.prg)
         self.summaries = SummaryTable(self.prg)
         self.obs: list[Ob] = []
         self._interps: dict[tuple, Interp] = {}
